@@ -258,6 +258,57 @@ def explore(ctx: Ctx, ver, maxops, nq):
     return recs
 
 
+def special_phase(ctx: Ctx):
+    """notQName='##defined' / '##definedSibling' (XSD 1.1): spec/WildcardsSpecial.tla against real validations."""
+    import xmlschema
+    from harness import cm
+    r = ctx.tlc("WildcardsSpecial", cfg_text="SPECIFICATION Spec\nCHECK_DEADLOCK FALSE\n", workers=1, tag="special",
+                count=False)
+    tables = {x["table"]: x["rows"] for x in r.json_records()}
+    word = {"defined": "##defined", "sibling": "##definedSibling"}
+    n = 0
+    for row in tables["elements"]:
+        nq = " ".join(word[f] for f in sorted(row["flags"]))
+        xsd = (f'<xs:schema xmlns:xs="{cm.XS}" targetNamespace="urn:T" xmlns:t="urn:T" elementFormDefault="qualified">'
+               '<xs:element name="g" type="xs:string"/><xs:element name="b" type="xs:string"/>'
+               '<xs:element name="root"><xs:complexType><xs:sequence>'
+               '<xs:element name="s" type="xs:string" minOccurs="0"/><xs:element ref="t:b" minOccurs="0"/>'
+               f'<xs:any namespace="##targetNamespace" {("notQName=" + chr(34) + nq + chr(34)) if nq else ""} '
+               'processContents="lax" minOccurs="0" maxOccurs="unbounded"/>'
+               '</xs:sequence></xs:complexType></xs:element></xs:schema>')
+        kids = {"plain": "<t:p/>", "global": "<t:g>v</t:g>", "sibling": "<t:s>v</t:s><t:s>v</t:s>",
+                "both": "<t:b>v</t:b><t:b>v</t:b>"}[row["kind"]]
+        xml = f'<t:root xmlns:t="urn:T">{kids}</t:root>'
+        n += 1
+        try:
+            got = xmlschema.XMLSchema11(xsd).is_valid(xml)
+        except Exception as e:      # noqa: BLE001
+            got = f"raised {type(e).__name__}: {e}"[:160]
+        if got != row["ok"]:
+            ctx.report({"driver": "special", "flags": row["flags"], "kind": row["kind"], "xsd": xsd, "xml": xml,
+                        "observed": got}, f"1.1 xs:any notQName={nq!r}: a name of kind {row['kind']} "
+                       f"{'must' if row['ok'] else 'must not'} be admitted: is_valid={got}")
+    for row in tables["attributes"]:
+        nq = " ".join(word[f] for f in sorted(row["flags"]))
+        xsd = (f'<xs:schema xmlns:xs="{cm.XS}" targetNamespace="urn:T" xmlns:t="urn:T">'
+               '<xs:attribute name="g" type="xs:string"/>'
+               '<xs:element name="root"><xs:complexType>'
+               f'<xs:anyAttribute namespace="##targetNamespace" {("notQName=" + chr(34) + nq + chr(34)) if nq else ""} '
+               'processContents="lax"/></xs:complexType></xs:element></xs:schema>')
+        xml = f'<t:root xmlns:t="urn:T" t:{"g" if row["kind"] == "global" else "p"}="v"/>'
+        n += 1
+        try:
+            got = xmlschema.XMLSchema11(xsd).is_valid(xml)
+        except Exception as e:      # noqa: BLE001
+            got = f"raised {type(e).__name__}: {e}"[:160]
+        if got != row["ok"]:
+            ctx.report({"driver": "special", "flags": row["flags"], "kind": row["kind"], "xsd": xsd, "xml": xml,
+                        "observed": got}, f"1.1 xs:anyAttribute notQName={nq!r}: a name of kind {row['kind']} "
+                       f"{'must' if row['ok'] else 'must not'} be admitted: is_valid={got}")
+    ctx.impl_replays += n
+    return n
+
+
 def run(ctx: Ctx):
     thorough = ctx.tier == "thorough"
     plans = [("1.0", 2 if thorough else 1, False), ("1.1", 2 if thorough else 1, False),
@@ -272,6 +323,7 @@ def run(ctx: Ctx):
                 ctx.sample({"ver": ver, "chain": r["hist"], "must_admit": r["den"]}, 3)
                 break
         _pool.clear()
+    total += special_phase(ctx)
     ctx.evaluations = ctx.impl_replays
     ctx.nontrivial = total
     ctx.exhaustive = True
@@ -279,7 +331,8 @@ def run(ctx: Ctx):
                 "steps) over all namespace constraints writable with ##any/##other/##local/"
                 "##targetNamespace/two foreign namespaces (+ notNamespace, notQName in 1.1), "
                 "as enumerated by TLC from spec/Wildcards.tla; admitted sets observed on the "
-                "universe {absent, target, A, B, fresh} x {x, z}; a case is a distinct chain")
+                "universe {absent, target, A, B, fresh} x {x, z}; a case is a distinct chain; plus "
+                "notQName ##defined / ##definedSibling x name kind (spec/WildcardsSpecial.tla)")
     ctx.assumptions += [
         "the fresh namespace F and the unnamed local name z represent all names no schema mentions",
         "processContents is 'skip' on every wildcard, so only the namespace constraint decides",
